@@ -278,12 +278,20 @@ def paramsL2Ops : String → Option (List String → String)
       | some [b] => showE (castI128 (truncF (maxXF (fOfBits b))))
       | _ => "ERR:proto"
   | "setalpha" => some fun a => match natArgs a with
-      | some [b] =>
+      | some (b :: rest) =>
+        let which := rest.headD 0
         let d := fOfBits b
-        match setAlphaL2 (d < 1.0) (truncF (d * 1000.0)) with
+        let ge1 := d ≥ 1.0
+        let k := truncF ((if 1e15 < d then 1e15 else d) * 1000.0)
+        if !decide (TruncClampEnv ge1 k) then "ENV:TruncClampEnv" else
+        let x36 : Nat := 10 ^ 36
+        match setAlphaL2 ge1 k with
         | .error e => e.show
-        | .ok none => toString (bitsOf (alphaLmoF (-1.0)))
-        | .ok (some k) => toString (bitsOf (alphaLmoF (Float.ofInt k / 1000.0)))
+        | .ok r =>
+          let ov : Float := match r with | none => -1.0 | some k => Float.ofInt k / 1000.0
+          if which == 0 then toString (bitsOf (alphaLmoX x36 ov))
+          else if which == 1 then toString (bitsOf (alphaGourdonX x36 ov (-1.0)).1)
+          else toString (bitsOf (alphaGourdonX x36 (-1.0) ov).2)
       | _ => "ERR:proto"
   | "fdiv64" => some fun a => match natArgs a with
       | some [x, d] => match fastDiv64 x d with | some q => toString q | none => "TRAP"
